@@ -98,7 +98,7 @@ def recipes2d(draw, types=T2D, affine_ok=True, perm_ok=True, reflection=True, hm
 
 
 @st.composite
-def recipes3d(draw, types=T3D, affine_ok=True, perm_ok=True, reflection=True, nmax=5):
+def recipes3d(draw, types=T3D, affine_ok=True, perm_ok=True, reflection=True, nmax=5, taper_ok=False):
     et = draw(st.sampled_from(types))
     verts = draw(polygons(3, nmax))
     organised = draw(st.booleans()) if len(verts) in (3, 4) else False
@@ -112,8 +112,16 @@ def recipes3d(draw, types=T3D, affine_ok=True, perm_ok=True, reflection=True, nm
     layers = draw(st.integers(1, 2 if o == 1 else 1))
     A, b = draw(affine(3, reflection)) if affine_ok else (None, None)
     perm = draw(st.one_of(st.none(), st.integers(0, 999))) if perm_ok else None
-    return dict(verts=verts, h=round(h, 3), elemType=et, organised=organised, extrude=ex, layers=layers,
-                A=A, b=b, perm=perm, orphans=0)
+    r = dict(verts=verts, h=round(h, 3), elemType=et, organised=organised, extrude=ex, layers=layers,
+             A=A, b=b, perm=perm, orphans=0)
+    if taper_ok and et.startswith(("PRISM", "HEXA")) and draw(st.integers(0, 1)) == 0:
+        # frustum: every cross-section scaled by (1 + taper * t) about the (moving) centroid, t in [0, 1] along the extrusion.
+        # Straight edges and planar faces are kept (the edges of wedges and bricks are either in a cross-section or along the
+        # extrusion; the diagonal edges of tetrahedra would become curved, hence PRISM / HEXA only), but the elements are no
+        # longer translates of their base:
+        # NOT supported by exact_integral / c09 Geometry, only for checks that do not need them
+        r["taper"] = draw(st.sampled_from([-0.4, 0.25, 0.6]))
+    return r
 
 
 @st.composite
@@ -196,12 +204,19 @@ def length_unit(recipe: dict) -> float:
 
 
 def build(recipe: dict) -> Mesh:
-    base = {k: recipe[k] for k in recipe if k not in ("A", "b", "perm", "orphans")}
+    base = {k: recipe[k] for k in recipe if k not in ("A", "b", "perm", "orphans", "taper")}
     mesh = _gmsh_mesh(_hash(base))
     A, b, perm, orph = recipe.get("A"), recipe.get("b"), recipe.get("perm"), recipe.get("orphans", 0)
-    if A is None and perm is None and not orph:
+    taper = recipe.get("taper")
+    if A is None and perm is None and not orph and not taper:
         return mesh.copy()
     coord = np.array(mesh.coord, float)
+    if taper:
+        e = np.array(recipe["extrude"], float)
+        t = coord[:, 2] / e[2]
+        c0 = np.array(list(np.mean(np.array(recipe["verts"], float), axis=0)) + [0.0])
+        ct = c0[None, :] + t[:, None] * e[None, :]
+        coord = ct + (1.0 + float(taper) * t)[:, None] * (coord - ct)
     if A is not None:
         A3 = np.eye(3)
         An = np.array(A, float)
@@ -281,6 +296,7 @@ def exact_integral(recipe, f, deg: int) -> float:
     """integral over the recipe's domain (after the affine map) of f(x,y,z) (vectorised),
     exact for polynomials of total degree <= deg.  Fan triangulation + Duffy/Gauss-Legendre;
     extrusion direction by Gauss-Legendre."""
+    assert not recipe.get("taper"), "exact_integral does not handle tapered recipes"
     verts, ex, A3, b3 = transformed_domain(recipe)
     n = deg // 2 + 2
     xg, wg = np.polynomial.legendre.leggauss(n)
